@@ -373,6 +373,16 @@ func (c *ShadowStreamConn) writeToShadowStreamConn(w *ShadowStreamConn) (n int64
 	writeBuf := w.writeBuf
 	readBuf := writeBuf[2+tagSize : 2+tagSize]
 
+	// Flush what a previous Read with a small buffer left behind.
+	if c.readStart < len(c.readBuf) {
+		leftover := c.readBuf[c.readStart:]
+		if err := w.write(writeBuf, leftover); err != nil {
+			return 0, err
+		}
+		c.readStart = len(c.readBuf)
+		n = int64(len(leftover))
+	}
+
 	for {
 		nr, err := c.read(readBuf)
 		if err != nil {
@@ -422,6 +432,16 @@ func (c *ShadowStreamConn) Read(b []byte) (n int, err error) {
 
 // WriteTo implements [io.WriterTo].
 func (c *ShadowStreamConn) WriteTo(w io.Writer) (n int64, err error) {
+	// Flush what a previous Read with a small buffer left behind.
+	if c.readStart < len(c.readBuf) {
+		nw, err := w.Write(c.readBuf[c.readStart:])
+		c.readStart += nw
+		n = int64(nw)
+		if err != nil {
+			return n, err
+		}
+	}
+
 	b := c.getReadBuf()
 
 	for {
